@@ -65,7 +65,8 @@ type propCfg struct {
 	QuickMS     int
 	ThoroughMS  int
 	Shards      int
-	MaxFile     int // corpus file size cap (quick)
+	MaxFile     int  // corpus file size cap (quick)
+	Cost        bool // build with the work counters (simulated time) compiled in
 }
 
 var cfgs = map[string]*propCfg{}
@@ -176,6 +177,53 @@ func buildLib(cfg *propCfg, tier string, scratch string) *build {
 	if err != nil {
 		infra("overlay: %v", err)
 	}
+	buildMod := modFlag
+	if cfg.Cost {
+		// simulated time: work counters in the minifier packages and in a private copy of the
+		// parse module (files of the module cache cannot be overlaid), which this build uses
+		// through a replace directive in a modfile of its own
+		out, err := run(verifDir, goEnv(), goBin, append(append([]string{"list"}, modFlag...), "-m", "-f", "{{.Dir}}", "github.com/tdewolff/parse/v2")...)
+		src := strings.TrimSpace(string(out))
+		if err != nil || src == "" || strings.Contains(src, "\n") {
+			infra("cannot locate the parse module: %v %s", err, out)
+		}
+		parseDir := filepath.Join(scratch, "parsecopy")
+		if out, err := run(verifDir, os.Environ(), "cp", "-r", src, parseDir); err != nil {
+			infra("copy of the parse module: %v %s", err, out)
+		}
+		if out, err := run(verifDir, os.Environ(), "chmod", "-R", "u+w", parseDir); err != nil {
+			infra("copy of the parse module: %v %s", err, out)
+		}
+		names, err := overlaygen.Cost(ov, repoDir, parseDir, scratch)
+		if err != nil {
+			infra("overlay: %v", err)
+		}
+		np := filepath.Join(scratch, "verifcost_names_gen.go")
+		if err := os.WriteFile(np, names, 0o644); err != nil {
+			infra("overlay: %v", err)
+		}
+		ov.Replace[filepath.Join(repoDir, "verifcost", "names_gen.go")] = np
+		base := filepath.Join(verifDir, "go.mod")
+		if len(modFlag) == 1 {
+			base = strings.TrimPrefix(modFlag[0], "-modfile=")
+		}
+		mod, err := os.ReadFile(base)
+		if err != nil {
+			infra("modfile: %v", err)
+		}
+		sum, err := os.ReadFile(strings.TrimSuffix(base, ".mod") + ".sum")
+		if err != nil {
+			infra("modfile: %v", err)
+		}
+		cm := filepath.Join(scratch, "cost.go.mod")
+		if err := os.WriteFile(cm, append(mod, []byte("\nreplace github.com/tdewolff/parse/v2 => "+parseDir+"\n")...), 0o644); err != nil {
+			infra("modfile: %v", err)
+		}
+		if err := os.WriteFile(filepath.Join(scratch, "cost.go.sum"), sum, 0o644); err != nil {
+			infra("modfile: %v", err)
+		}
+		buildMod = []string{"-modfile=" + cm}
+	}
 	ovPath := filepath.Join(scratch, "overlay.json")
 	if err := ov.Write(ovPath); err != nil {
 		infra("overlay: %v", err)
@@ -199,7 +247,7 @@ func buildLib(cfg *propCfg, tier string, scratch string) *build {
 		infra("corpus: %v", err)
 	}
 	bin := filepath.Join(scratch, "lib.test")
-	args := append([]string{"test", "-c"}, modFlag...)
+	args := append([]string{"test", "-c"}, buildMod...)
 	args = append(args, "-tags", "verif", "-overlay", ovPath, "-vet=off", "-o", bin)
 	if cfg.Race {
 		args = append(args, "-race")
@@ -536,6 +584,11 @@ func aggregate(cfg *propCfg, tier string, seed uint64, b *build, outs []shardOut
 	sort.Strings(keys)
 	newViol := 0
 	replayDir := filepath.Join(verifDir, "work", "replays")
+	if d := os.Getenv("VERIF_EVIDENCE_DIR"); d != "" {
+		// experiments that redirect their evidence keep their replay files apart too, so that
+		// concurrent runs do not overwrite one another's files
+		replayDir = filepath.Join(d, "replays")
+	}
 	os.MkdirAll(replayDir, 0o755)
 	knownLines, violLines := []string{}, []string{}
 	knownIdx := map[string]int{}
